@@ -5614,16 +5614,18 @@ def _parse_allocation_descriptors(flags, data, length, start_offset, extent):
     # 2 = extended_ad
     # 3 = single descriptor spanning entire length of the Allocation
     # Descriptors field of this File Entry.
+    # Each descriptor is handed just its own bytes; a slice to the end of the
+    # data for every one of them takes time quadratic in their number.
     if (flags & 0x7) == 0:
         while offset < length:
             short_ad = UDFShortAD()
-            short_ad.parse(data[offset:])
+            short_ad.parse(data[offset:offset + short_ad.length()])
             alloc_descs.append(short_ad)
             offset += short_ad.length()
     elif (flags & 0x7) == 1:
         while offset < length:
             long_ad = UDFLongAD()
-            long_ad.parse(data[offset:])
+            long_ad.parse(data[offset:offset + long_ad.length()])
             alloc_descs.append(long_ad)
             offset += long_ad.length()
     elif (flags & 0x7) == 2:
